@@ -5,6 +5,7 @@ package main
 
 import (
 	"fmt"
+	"net"
 	"go/token"
 	"go/types"
 	"math"
@@ -48,7 +49,7 @@ func (st *State) tryNative(g *Goroutine, fr *Frame, fn *ssa.Function, args []Val
 	if r, ok := st.eng.redirects[key]; ok && (st.job == nil || st.job.Params["noredirect"] == "" || !strings.Contains(key, st.job.Params["noredirect"])) {
 		target := st.eng.lookupFunc(r)
 		if target == nil {
-			st.unsupported("redirect target %s not found", r)
+			st.unsupported("redirect target %s not found (the harness package that models %s is not loaded)", r, key)
 		}
 		st.ensureInit(target.Pkg)
 		st.pushFrame(g, target, args, nil, fr.fi.idx[fr.block.Instrs[fr.ip].(ssa.Value)])
@@ -85,6 +86,11 @@ func (e *Engine) lookupFunc(name string) *ssa.Function {
 
 func (st *State) callNativeByName(g *Goroutine, fr *Frame, cl *Closure, args []Value) (Value, status) {
 	if strings.HasPrefix(cl.native, "builtin:") {
+		if cl.native == "builtin:close" {
+			if c, ok := args[0].(*ChanObj); ok && c != nil && st.yieldPoint(g, c.st) {
+				return nil, stYield
+			}
+		}
 		return st.builtin(g, fr, cl.native[8:], args), stNext
 	}
 	st.unsupported("native closure %s", cl.native)
@@ -593,6 +599,20 @@ func init() {
 		}
 		return nil, stNext
 	})
+	V("YieldOn", func(st *State, g *Goroutine, fr *Frame, fn *ssa.Function, args []Value) (Value, status) {
+		// scheduling point for an operation on the object behind the pointer (write = it may change what others observe)
+		var o *Obj
+		if iv, ok := args[0].(Iface); ok {
+			if p, ok := iv.val.(Pointer); ok {
+				o = p.obj
+			}
+		}
+		w := st.branchOn(args[1])
+		if st.yieldPoint(g, o, w) {
+			return nil, stYield
+		}
+		return nil, stNext
+	})
 	V("LiveGoroutines", func(st *State, g *Goroutine, fr *Frame, fn *ssa.Function, args []Value) (Value, status) {
 		n := 0
 		for _, o := range st.gs {
@@ -629,6 +649,9 @@ func init() {
 	})
 
 	N := func(name string, f nativeFn) { natives[name] = f }
+	noop := func(st *State, g *Goroutine, fr *Frame, fn *ssa.Function, args []Value) (Value, status) {
+		return st.zeroResults(fn), stNext
+	}
 	// ---- time ----
 	N("time.Now", func(st *State, g *Goroutine, fr *Frame, fn *ssa.Function, args []Value) (Value, status) {
 		return st.timeValue(st.now), stNext
@@ -669,6 +692,45 @@ func init() {
 		c.st.slots[chReadyAt] = st.addV(st.now, args[0])
 		return c, stNext
 	})
+	N("time.NewTimer", func(st *State, g *Goroutine, fr *Frame, fn *ssa.Function, args []Value) (Value, status) {
+		c := st.newChan(1, st.timeType())
+		c.st.slots[chTimerKind] = uint64(1)
+		c.st.slots[chReadyAt] = st.addV(st.now, args[0])
+		tt := st.eng.prog.ImportedPackage("time").Type("Timer").Type()
+		p := st.allocType(tt, "timer")
+		p.obj.slots[0] = c
+		return p, stNext
+	})
+	N("(*time.Timer).Reset", func(st *State, g *Goroutine, fr *Frame, fn *ssa.Function, args []Value) (Value, status) {
+		p := args[0].(Pointer)
+		c := p.obj.slots[p.off].(*ChanObj)
+		active := c.st.slots[chTimerKind].(uint64) != 0 && !c.st.slots[chFired].(bool)
+		st.setSlot(c.st, chTimerKind, uint64(1))
+		st.setSlot(c.st, chReadyAt, st.addV(st.now, args[1]))
+		st.setSlot(c.st, chFired, false)
+		st.setSlot(c.st, chBuf, Agg{})
+		return active, stNext
+	})
+	N("(*time.Timer).Stop", func(st *State, g *Goroutine, fr *Frame, fn *ssa.Function, args []Value) (Value, status) {
+		p := args[0].(Pointer)
+		c := p.obj.slots[p.off].(*ChanObj)
+		active := c.st.slots[chTimerKind].(uint64) != 0 && !c.st.slots[chFired].(bool)
+		st.setSlot(c.st, chTimerKind, uint64(0))
+		return active, stNext
+	})
+	N("(*github.com/cenkalti/backoff/v5.ExponentialBackOff).NextBackOff", func(st *State, g *Goroutine, fr *Frame, fn *ssa.Function, args []Value) (Value, status) {
+		// model: any duration in [0, 4.5 s] (1.5 x the configured MaxInterval of 3 s); its float arithmetic is not the subject
+		d := st.freshVar("backoff", "i64", BV(64))
+		if st.job.Params["backoffSet"] == "1" {
+			// coarse model: one of 0, 400 ms, 3 s
+			p := st.tp
+			st.addPC(p.Or(p.Eq(d, p.BVConst(64, 0)), p.Or(p.Eq(d, p.BVConst(64, 400_000_000)), p.Eq(d, p.BVConst(64, 3_000_000_000)))), false)
+			return d, stNext
+		}
+		st.addPC(st.tp.Ule(d, st.tp.BVConst(64, 4_500_000_000)), false)
+		return d, stNext
+	})
+	N("(*github.com/cenkalti/backoff/v5.ExponentialBackOff).Reset", noop)
 	// ---- sync ----
 	N("(*sync.Mutex).Lock", nativeLock)
 	N("(*sync.Mutex).Unlock", nativeUnlock)
@@ -696,6 +758,9 @@ func init() {
 	})
 	N("(*sync.RWMutex).Unlock", func(st *State, g *Goroutine, fr *Frame, fn *ssa.Function, args []Value) (Value, status) {
 		p := args[0].(Pointer)
+		if st.yieldPoint(g, p.obj) {
+			return nil, stYield
+		}
 		if p.obj.slots[p.off].(uint64) == 0 {
 			st.rtPanic("sync: Unlock of unlocked RWMutex")
 		}
@@ -705,7 +770,7 @@ func init() {
 	})
 	N("(*sync.RWMutex).RLock", func(st *State, g *Goroutine, fr *Frame, fn *ssa.Function, args []Value) (Value, status) {
 		p := args[0].(Pointer)
-		if st.yieldPoint(g, p.obj) {
+		if st.yieldPoint(g, p.obj, false) {
 			return nil, stYield
 		}
 		if p.obj.slots[p.off].(uint64) != 0 {
@@ -718,6 +783,9 @@ func init() {
 	})
 	N("(*sync.RWMutex).RUnlock", func(st *State, g *Goroutine, fr *Frame, fn *ssa.Function, args []Value) (Value, status) {
 		p := args[0].(Pointer)
+		if st.yieldPoint(g, p.obj, false) {
+			return nil, stYield
+		}
 		if p.obj.slots[p.off+4].(uint64) == 0 {
 			st.rtPanic("sync: RUnlock of unlocked RWMutex")
 		}
@@ -727,6 +795,9 @@ func init() {
 	})
 	N("(*sync.WaitGroup).Add", func(st *State, g *Goroutine, fr *Frame, fn *ssa.Function, args []Value) (Value, status) {
 		p := args[0].(Pointer)
+		if st.yieldPoint(g, p.obj) {
+			return nil, stYield
+		}
 		n := int64(st.concrete(args[1]))
 		c := int64(p.obj.slots[p.off].(uint64)) + n
 		if c < 0 {
@@ -738,6 +809,9 @@ func init() {
 	})
 	N("(*sync.WaitGroup).Done", func(st *State, g *Goroutine, fr *Frame, fn *ssa.Function, args []Value) (Value, status) {
 		p := args[0].(Pointer)
+		if st.yieldPoint(g, p.obj) {
+			return nil, stYield
+		}
 		c := int64(p.obj.slots[p.off].(uint64)) - 1
 		if c < 0 {
 			st.rtPanic("sync: negative WaitGroup counter")
@@ -748,7 +822,7 @@ func init() {
 	})
 	N("(*sync.WaitGroup).Wait", func(st *State, g *Goroutine, fr *Frame, fn *ssa.Function, args []Value) (Value, status) {
 		p := args[0].(Pointer)
-		if st.yieldPoint(g, p.obj) {
+		if st.yieldPoint(g, p.obj, false) {
 			return nil, stYield
 		}
 		if p.obj.slots[p.off].(uint64) != 0 {
@@ -760,6 +834,9 @@ func init() {
 	})
 	N("(*sync.Once).Do", func(st *State, g *Goroutine, fr *Frame, fn *ssa.Function, args []Value) (Value, status) {
 		p := args[0].(Pointer)
+		if st.yieldPoint(g, p.obj) {
+			return nil, stYield
+		}
 		if p.obj.slots[p.off].(uint64) != 0 {
 			st.hbAcquire(p.obj)
 			return nil, stNext
@@ -782,7 +859,10 @@ func init() {
 		}
 		N("(*sync/atomic."+ty+").Add", func(st *State, g *Goroutine, fr *Frame, fn *ssa.Function, args []Value) (Value, status) {
 			p := args[0].(Pointer)
-			st.atomicAccess(p)
+			if st.yieldPoint(g, p.obj) {
+			return nil, stYield
+		}
+		st.atomicAccess(p)
 			var nv Value
 			x, xc := p.obj.slots[p.off].(uint64)
 			y, yc := args[1].(uint64)
@@ -796,18 +876,27 @@ func init() {
 		})
 		N("(*sync/atomic."+ty+").Load", func(st *State, g *Goroutine, fr *Frame, fn *ssa.Function, args []Value) (Value, status) {
 			p := args[0].(Pointer)
-			st.atomicAccess(p)
+			if st.yieldPoint(g, p.obj, false) {
+			return nil, stYield
+		}
+		st.atomicAccess(p)
 			return p.obj.slots[p.off], stNext
 		})
 		N("(*sync/atomic."+ty+").Store", func(st *State, g *Goroutine, fr *Frame, fn *ssa.Function, args []Value) (Value, status) {
 			p := args[0].(Pointer)
-			st.atomicAccess(p)
+			if st.yieldPoint(g, p.obj) {
+			return nil, stYield
+		}
+		st.atomicAccess(p)
 			st.setSlot(p.obj, p.off, args[1])
 			return nil, stNext
 		})
 		N("(*sync/atomic."+ty+").CompareAndSwap", func(st *State, g *Goroutine, fr *Frame, fn *ssa.Function, args []Value) (Value, status) {
 			p := args[0].(Pointer)
-			st.atomicAccess(p)
+			if st.yieldPoint(g, p.obj) {
+			return nil, stYield
+		}
+		st.atomicAccess(p)
 			eq := st.equal(types.Typ[types.Uint64], st.to64w(p.obj.slots[p.off], w), st.to64w(args[1], w))
 			if st.branchOn(eq) {
 				st.setSlot(p.obj, p.off, args[2])
@@ -817,7 +906,10 @@ func init() {
 		})
 		N("(*sync/atomic."+ty+").Swap", func(st *State, g *Goroutine, fr *Frame, fn *ssa.Function, args []Value) (Value, status) {
 			p := args[0].(Pointer)
-			st.atomicAccess(p)
+			if st.yieldPoint(g, p.obj) {
+			return nil, stYield
+		}
+		st.atomicAccess(p)
 			old := p.obj.slots[p.off]
 			st.setSlot(p.obj, p.off, args[1])
 			return old, stNext
@@ -825,11 +917,17 @@ func init() {
 	}
 	N("(*sync/atomic.Bool).Load", func(st *State, g *Goroutine, fr *Frame, fn *ssa.Function, args []Value) (Value, status) {
 		p := args[0].(Pointer)
+		if st.yieldPoint(g, p.obj) {
+			return nil, stYield
+		}
 		st.atomicAccess(p)
 		return st.notV(st.equal(types.Typ[types.Uint32], p.obj.slots[p.off], uint64(0))), stNext
 	})
 	N("(*sync/atomic.Bool).Store", func(st *State, g *Goroutine, fr *Frame, fn *ssa.Function, args []Value) (Value, status) {
 		p := args[0].(Pointer)
+		if st.yieldPoint(g, p.obj) {
+			return nil, stYield
+		}
 		st.atomicAccess(p)
 		b := st.branchOn(args[1])
 		if b {
@@ -841,15 +939,29 @@ func init() {
 	})
 	N("(*sync/atomic.Pointer).Load", func(st *State, g *Goroutine, fr *Frame, fn *ssa.Function, args []Value) (Value, status) {
 		p := args[0].(Pointer)
+		if st.yieldPoint(g, p.obj) {
+			return nil, stYield
+		}
 		st.atomicAccess(p)
 		return st.ptrSlot(p), stNext
 	})
+	natives["(*sync/atomic.Pointer[T]).Load"] = natives["(*sync/atomic.Pointer).Load"]
+	N("os.Getenv", func(st *State, g *Goroutine, fr *Frame, fn *ssa.Function, args []Value) (Value, status) {
+		return "", stNext
+	})
+	N("os.LookupEnv", func(st *State, g *Goroutine, fr *Frame, fn *ssa.Function, args []Value) (Value, status) {
+		return Tuple{"", false}, stNext
+	})
 	N("(*sync/atomic.Pointer).Store", func(st *State, g *Goroutine, fr *Frame, fn *ssa.Function, args []Value) (Value, status) {
 		p := args[0].(Pointer)
+		if st.yieldPoint(g, p.obj) {
+			return nil, stYield
+		}
 		st.atomicAccess(p)
 		st.setSlot(p.obj, st.ptrSlotIdx(p), args[1])
 		return nil, stNext
 	})
+	natives["(*sync/atomic.Pointer[T]).Store"] = natives["(*sync/atomic.Pointer).Store"]
 	// ---- fmt / errors / strings ----
 	N("fmt.Errorf", nativeErrorf)
 	opaque := func(st *State, g *Goroutine, fr *Frame, fn *ssa.Function, args []Value) (Value, status) {
@@ -859,7 +971,47 @@ func init() {
 	N("fmt.Sprint", opaque)
 	N("fmt.Sprintln", opaque)
 	N("encoding/hex.EncodeToString", opaque)
-	N("(net.IP).String", opaque)
+	N("(net.IP).String", func(st *State, g *Goroutine, fr *Frame, fn *ssa.Function, args []Value) (Value, status) {
+		sl := args[0].(Slice)
+		n := 0
+		if sl.obj != nil {
+			n = int(st.concrete(sl.len))
+		}
+		bs := make([]byte, n)
+		conc := true
+		for i := 0; i < n; i++ {
+			b, ok := sl.obj.slots[sl.off+i].(uint64)
+			if !ok {
+				conc = false
+				break
+			}
+			bs[i] = byte(b)
+		}
+		if conc {
+			return net.IP(bs).String(), stNext
+		}
+		// symbolic address: an injective function of the canonical (IPv4-mapped) 16-byte form
+		if n != 4 && n != 16 {
+			st.unsupported("net.IP.String on symbolic address of length %d", n)
+		}
+		canon := make([]Value, 16)
+		if n == 4 {
+			for i := 0; i < 10; i++ {
+				canon[i] = uint64(0)
+			}
+			canon[10], canon[11] = uint64(0xff), uint64(0xff)
+			for i := 0; i < 4; i++ {
+				canon[12+i] = sl.obj.slots[sl.off+i]
+			}
+		} else {
+			for i := 0; i < 16; i++ {
+				canon[i] = sl.obj.slots[sl.off+i]
+			}
+		}
+		o := st.newOpaque("ip.String")
+		o.fam, o.inj = "ip:", canon
+		return o, stNext
+	})
 	N("(*net.UDPAddr).String", opaque)
 	N("(*net.TCPAddr).String", opaque)
 	N("(net/netip.Addr).String", opaque)
@@ -870,9 +1022,6 @@ func init() {
 	N("runtime/debug.Stack", func(st *State, g *Goroutine, fr *Frame, fn *ssa.Function, args []Value) (Value, status) {
 		return Slice{nil_: true, len: uint64(0)}, stNext
 	})
-	noop := func(st *State, g *Goroutine, fr *Frame, fn *ssa.Function, args []Value) (Value, status) {
-		return st.zeroResults(fn), stNext
-	}
 	for _, n := range []string{"fmt.Printf", "fmt.Println", "fmt.Print", "fmt.Fprintf", "fmt.Fprintln", "fmt.Fprint", "log.Printf", "log.Println", "log.Print",
 		"runtime.SetFinalizer", "runtime.KeepAlive", "runtime.Gosched", "runtime.GC", "(*sync.Pool).Put"} {
 		N(n, noop)
@@ -1091,6 +1240,8 @@ func (st *State) atomicAccess(p Pointer) {
 	st.hbRelease(p.obj)
 }
 
+type yieldNow struct{}
+
 func (st *State) ptrSlotIdx(p Pointer) int {
 	// atomic.Pointer[T] struct { _ [0]*T; _ noCopy; v unsafe.Pointer }: the array of length 0 has 0 slots
 	return p.off
@@ -1142,6 +1293,9 @@ func nativeLock(st *State, g *Goroutine, fr *Frame, fn *ssa.Function, args []Val
 
 func nativeUnlock(st *State, g *Goroutine, fr *Frame, fn *ssa.Function, args []Value) (Value, status) {
 	p := args[0].(Pointer)
+	if st.yieldPoint(g, p.obj) {
+		return nil, stYield
+	}
 	if p.obj.slots[p.off].(uint64) == 0 {
 		st.rtPanic("sync: unlock of unlocked mutex")
 	}
@@ -1376,6 +1530,10 @@ func (st *State) assert(c Value, label, kf string, inRegion Value) status {
 			return st.assume(x)
 		}
 		r, m := st.solve([]*Term{neg}, true)
+		if r == Unknown {
+			// second opinion with a fresh process of another solver and a longer limit before giving up
+			r, m = st.solveFallback([]*Term{neg})
+		}
 		switch r {
 		case Unsat:
 			as.Proved++
